@@ -1,6 +1,7 @@
 open BinNums
 open BinPosDef
 open Datatypes
+open Decimal
 
 module Pos =
  struct
@@ -124,6 +125,14 @@ module Pos =
        | Coq_xH -> double_pred_mask p)
     | Coq_xH -> IsNeg
 
+  (** val mul : positive -> positive -> positive **)
+
+  let rec mul x y =
+    match x with
+    | Coq_xI p -> add y (Coq_xO (mul p y))
+    | Coq_xO p -> Coq_xO (mul p y)
+    | Coq_xH -> y
+
   (** val compare_cont : comparison -> positive -> positive -> comparison **)
 
   let rec compare_cont r x y =
@@ -160,6 +169,24 @@ module Pos =
     | Coq_xH -> (match q with
                  | Coq_xH -> true
                  | _ -> false)
+
+  (** val of_succ_nat : nat -> positive **)
+
+  let rec of_succ_nat = function
+  | O -> Coq_xH
+  | S x -> succ (of_succ_nat x)
+
+  (** val to_little_uint : positive -> uint **)
+
+  let rec to_little_uint = function
+  | Coq_xI p0 -> Little.succ_double (to_little_uint p0)
+  | Coq_xO p0 -> Little.double (to_little_uint p0)
+  | Coq_xH -> D1 Nil
+
+  (** val to_uint : positive -> uint **)
+
+  let to_uint p =
+    rev (to_little_uint p)
 
   (** val eq_dec : positive -> positive -> bool **)
 
